@@ -6,7 +6,7 @@ import itertools
 from mc import env  # noqa: F401
 from mc import kernel
 from mc.canon import canon
-from mc.report import Violation
+from mc.report import Violation, Lookalike
 
 import desper
 import desper.bisect as dbisect
@@ -76,6 +76,21 @@ class PH(Base):
         self.log.append((self.label, 'DECOY on_remove called by name', None))
 
 
+@desper.event_handler(on_remove='detached')
+class PR(Base):
+    """Handler processor whose on_remove raises, once per instance (Quit /
+    SwitchWorld raised from a callback do exactly that)."""
+    priority = 1
+    raised = None
+
+    def detached(self):
+        self.log.append((self.label, 'on_remove', self.world))
+        if not getattr(self, 'fired', False):
+            self.fired = True
+            self.raised.append(self.label)
+            raise Lookalike(f'{self.label}.on_remove raises')
+
+
 class PS(Base):
     """One-shot: removes itself from inside its own process()."""
     priority = 1
@@ -86,7 +101,11 @@ class PS(Base):
         self.world.remove_processor(type(self))
 
 
-CLASSES = {c.__name__: c for c in (P1, P2, P3, PH, PS)}
+CLASSES = {c.__name__: c for c in (P1, P2, P3, PH, PS, PR)}
+
+
+def events_of(obj):
+    return getattr(obj, '__events__', {})
 
 
 class Ctx:
@@ -129,6 +148,7 @@ class ProcDriver:
         ctx.enabled = True
         ctx.postponed = []
         ctx.selfremoved = []
+        ctx.raised = []
         return ctx
 
     def ops(self, ctx):
@@ -150,6 +170,51 @@ class ProcDriver:
         return ops
 
     def apply(self, ctx, op):
+        del ctx.raised[:]
+        try:
+            self._apply(ctx, op)
+        except Violation as v:
+            if not ctx.raised or 'Lookalike(' not in v.detail:
+                raise
+        if not ctx.raised:
+            return
+        # an on_remove callback raised inside the operation.  What the
+        # operation leaves behind is not specified - but whatever it is, the
+        # world tells one story about it: what `processors` lists is what
+        # get_processor finds and what process() calls, once, in that order
+        ctx.hits['processor_callback_raised'] += 1
+        w = ctx.world
+        listed = list(w.processors)
+        for cname, klass in CLASSES.items():
+            one = w.get_processor(klass)
+            match = [p for p in listed if isinstance(p, klass)]
+            if (one is None) != (not match) or (
+                    match and not any(one is m for m in match)):
+                raise Violation(
+                    'processor_tables_agree',
+                    f'{op}: {ctx.raised[0]}.on_remove raised; afterwards '
+                    f'processors = {listed} but get_processor({cname}) = '
+                    f'{one!r}', after_raising_callback=True)
+        mark = len(ctx.log)
+        try:
+            w.process(0.5)
+        except Exception as exc:
+            raise Violation('op_raised', f'process raised {exc!r} after '
+                            f'{ctx.raised[0]}.on_remove had raised in {op}',
+                            op='process')
+        got = [r for r in ctx.log[mark:] if r[1] == 'process']
+        del ctx.log[mark:]
+        if got != [(p.label, 'process', 0.5) for p in listed]:
+            raise Violation(
+                'processor_tables_agree',
+                f'{op}: {ctx.raised[0]}.on_remove raised; afterwards '
+                f'processors = {listed} but process() called {got}',
+                after_raising_callback=True)
+        raise kernel.Pruned('an on_remove callback raised: what the '
+                            'interrupted operation leaves behind is not '
+                            'specified')
+
+    def _apply(self, ctx, op):
         w = ctx.world
         mark = len(ctx.log)
         if op[0] == 'add':
@@ -160,6 +225,7 @@ class ProcDriver:
                 ctx.counter += 1
                 inst = klass(f'{cname}#{ctx.counter}', ctx.log)
                 inst.gone = ctx.selfremoved
+                inst.raised = ctx.raised
                 ctx.keep.append(inst)
             else:
                 inst = old[0]
@@ -168,7 +234,7 @@ class ProcDriver:
             if old is not None:
                 ctx.order.remove(old)
                 ctx.hits['replace_same_type'] += 1
-                if cname == 'PH':
+                if 'on_remove' in events_of(old[0]):
                     expect.append((old[0].label, 'on_remove', w))
             try:
                 w.add_processor(inst, prio)
@@ -188,7 +254,7 @@ class ProcDriver:
             ctx.seq += 1
             ctx.order.append((inst, eff, ctx.seq))
             ctx.order.sort(key=lambda x: x[1])      # stable: ties by add time
-            if cname == 'PH':
+            if 'on_add' in events_of(inst):
                 expect.append((inst.label, 'on_add', w))
             if inst.world is not w:
                 raise Violation('processor_knows_world',
@@ -223,7 +289,7 @@ class ProcDriver:
                                     exact=bool(exact))
                 ctx.order.remove(hit[0])
                 expect = ([(got.label, 'on_remove', w)]
-                          if isinstance(got, PH) else [])
+                          if 'on_remove' in events_of(got) else [])
             self._callbacks(ctx, op, mark, expect, 'remove_callbacks')
         elif op[0] == 'disable':
             w.dispatch_enabled = False
@@ -307,7 +373,7 @@ class ProcDriver:
                                 f'{want}', exact=bool(exact))
             obs.append(None if one is None else type(one).__name__)
         for inst in ctx.keep:
-            if isinstance(inst, PH):
+            if events_of(inst):
                 if w.is_handler(inst) != any(inst is p for p in want):
                     raise Violation('handler_registered_while_added',
                                     f'is_handler({inst}) = '
@@ -392,9 +458,18 @@ def drivers(tier):
         return {'processors': (ProcDriver(classes=('P1', 'P2', 'P3', 'PH', 'PS'),
                                           prios=(None, 0, 5),
                                           max_postponed=2, dts=(0.5,)),
-                               dict(max_states=300000, time_budget=300))}
+                               dict(max_states=300000, time_budget=300)),
+                # a handler processor whose on_remove raises
+                'raising-callback': (ProcDriver(
+                    classes=('P1', 'P3', 'PH', 'PR'), prios=(None, 0),
+                    max_postponed=2, dts=(0.5,)),
+                    dict(max_states=300000, time_budget=300))}
     return {'processors': (ProcDriver(), dict(max_states=2000000,
-                                              time_budget=3000))}
+                                              time_budget=3000)),
+            'raising-callback': (ProcDriver(
+                classes=('P1', 'P2', 'P3', 'PH', 'PR'), prios=(None, 0, 5),
+                max_postponed=2), dict(max_states=2000000,
+                                       time_budget=3000))}
 
 
 def run(tier, rep):
@@ -410,7 +485,8 @@ def run(tier, rep):
                      explicit_zero_or_negative=1, remove_by_supertype=1,
                      readd_attached_instance=1, insort_among_equal=1,
                      postponed_processor_callback_released=1,
-                     processor_removes_itself_in_frame=1)
+                     processor_removes_itself_in_frame=1,
+                     processor_callback_raised=1)
     for name, (driver, kw) in drivers(tier).items():
         kernel.explore(driver, rep, part=name, params=driver.params(), **kw)
     n = 5 if tier == 'quick' else 6
